@@ -44,11 +44,14 @@ def run(ctx):
     scen = scenarios(ctx, hists, quick)
     ctx.cov["scenarios"] = len(scen)
     worlds = [ip.World(unc, ctx.work.sub("world_small"), large=False)]
-    if not quick:
-        worlds.append(ip.World(unc, ctx.work.sub("world_large"), large=True))
+    # "large": the output spans several stdio buffers, so that a write error in the middle of the
+    # file (not only at fclose) exists as a fault point
+    worlds.append(ip.World(unc, ctx.work.sub("world_large"), large=True))
     jobs = []
     for wi, w in enumerate(worlds):
         for key, h in sorted(scen.items(), key=lambda kv: str(kv[0])):
+            if quick and wi == 1 and not (key[0] == "fresh" and key[2] == "unf"):
+                continue
             jobs.append((wi, w, key, h, None))
             if key[1] == "replace" and (not quick or key[0] == "fresh"):
                 jobs.append((wi, w, key, h, "fo"))     # -f F -o F takes the same path as --replace
